@@ -160,6 +160,10 @@ func cmdCheck(args []string) int {
 		fmt.Println("ENGINE-ERROR specs:", err)
 		return 2
 	}
+	if err := x.registerAxioms(); err != nil {
+		fmt.Println("ENGINE-ERROR axioms:", err)
+		return 2
+	}
 	loadSecs := time.Since(t0).Seconds()
 	var reports []FuncReport
 	var onlyRe *regexp.Regexp
@@ -202,6 +206,10 @@ func cmdCheck(args []string) int {
 			lines = append(lines, fmt.Sprintf("UNDECIDED property=%s function=%s: %s", prop, r.Name, r.Err))
 			undecided = true
 		}
+	}
+	for _, e := range x.lemmaErrs {
+		lines = append(lines, fmt.Sprintf("UNDECIDED property=%s %s", prop, e))
+		undecided = true
 	}
 	// vacuity
 	for _, r := range reports {
@@ -567,6 +575,9 @@ func writeEvidence(x *Exec, plan *Plan, prop, tier string, seed int, obls []*Obl
 	}
 	for n := range x.used {
 		assumptions = append(assumptions, "assumed external contract: "+n)
+	}
+	for _, a := range x.axiomNames {
+		assumptions = append(assumptions, "assumed axiom "+a)
 	}
 	assumptions = append(assumptions,
 		"go/ssa (x/tools v0.29.0) implements the Go specification; the VC generator (/verif/engine) is correct",
